@@ -149,6 +149,11 @@ inline void check_queue(EvLog const& log, Net::QInfo const& q, bool complete, QC
 				continue;
 			}
 			fifo.pop_front();
+			// forwarded packets are not altered: in particular a packet that came with a drop callback still has it
+			// (a later hop that drops it has to be able to report the drop)
+			if (a.has_drop_fun != e.has_drop_fun)
+				R().violation("C10", a.has_drop_fun ? "drop-callback-stripped-in-transit" : "drop-callback-appeared-in-transit", where + ": " + ev_str(a)
+					+ fmt(" entered the queue %s a drop callback and left it %s one", a.has_drop_fun ? "with" : "without", e.has_drop_fun ? "with" : "without"));
 			std::int64_t const s = a.size + a.overhead;
 			held -= s;
 			// expected departure: max(previous observed departure, arrival + latency) + size/bandwidth
